@@ -17,7 +17,7 @@ PROPERTY = 'C17'
 LEVEL = 'fault_enumeration'
 RULE = ('programs {finite facts, deep structural recursion over lists and Peano numbers, left recursion, mutual recursion, '
         'infinitely many answers of growing depth, answers before a deep branch, findall/once around recursion} x EVERY '
-        'recursion limit of a contiguous range (quick 60..200, thorough 60..460) plus selected limits up to 1000, so the '
+        'recursion limit of a contiguous range (quick 60..140, thorough 60..460) plus selected limits up to 1000, so the '
         'strike point sweeps over every kind of frame x projection functions raising at answer k (k<=6) with a custom '
         'exception / RuntimeError / StopIteration / KeyboardInterrupt / not at all x generator passed inline or also held '
         'by the caller and closed afterwards. Each case runs in its own forked child (the limit is process-global). '
@@ -70,6 +70,13 @@ def programs():
     P.append(('findall_nat3', [(C('t', V('L')), ('call', C('findall', X, C('mem', X, L([A('a'), A('b'), A('c')])), V('L'))))] + mem, 't', [V('Q')]))
     P.append(('once_nat', [(C('t', X), ('call', C('once', C('nat', X))))] + nat, 't', [V('Q')]))
     P.append(('mem30', mem, 'mem', [V('Q'), L([I(i) for i in range(30)])]))
+    # a query variable nested inside the value of another one, bound later, next to a term that grows without bound
+    P.append(('report', [(C('report', V('R'), X, N), gen.conj([('call', C('=', V('R'), C('row', X, N))), ('call', C('size', X)), ('call', C('nat', N))])),
+                         (C('size', A('small')), ('true',)), (C('size', A('big')), ('true',))] + nat, 'report', [V('Q1'), V('Q2'), V('Q3')]))
+    P.append(('report_deep_last', [(C('rep3', V('R'), X), gen.conj([('call', C('=', V('R'), C('row', X, peano(50)))), ('call', C('size', X))])),
+                                   (C('size', A('small')), ('true',)), (C('size', A('big')), ('true',))], 'rep3', [V('Q1'), V('Q2')]))
+    P.append(('report_deep_first', [(C('rep2', V('R'), X), gen.conj([('call', C('=', V('R'), C('row', peano(50), X))), ('call', C('size', X))])),
+                                    (C('size', A('small')), ('true',)), (C('size', A('big')), ('true',))], 'rep2', [V('Q1'), V('Q2')]))
     # a fact whose first argument binds a query variable to a constant and whose second argument is deep: the limit
     # strikes inside the unification of the later argument, after the earlier one has been bound
     for n in (40, 75):
@@ -108,11 +115,12 @@ FAULTS = [None] + [(k, e) for k in (1, 2, 3, 6) for e in ('Custom', 'RuntimeErro
 
 
 def limits(tier):
-    hi = 200 if tier == 'quick' else 460
+    hi = 140 if tier == 'quick' else 460
     return list(range(60, hi + 1)) + [500, 600, 700, 800, 900, 1000]
 
 
 BLOCK = 12
+CAP = 100          # answers looked at per enumeration (programs with infinitely many answers end at the limit long before)
 
 
 def nblocks(tier):
@@ -135,7 +143,7 @@ def plan(tier, seed):
 
 
 def EXHAUSTIVE(tier):
-    return {'programs': len(progs()), 'limits': len(limits(tier)), 'contiguous_limit_range': [60, 200 if tier == 'quick' else 460],
+    return {'programs': len(progs()), 'limits': len(limits(tier)), 'contiguous_limit_range': [60, 140 if tier == 'quick' else 460],
             'cases': len(progs()) * len(limits(tier)), 'note': 'every (program, limit) pair; fault and hold mode chosen per pair from the seed'}
 
 
@@ -146,14 +154,14 @@ def setup(tier, seed):
     sys.setrecursionlimit(20000)      # for the reference interpreters only (pure Python, no engine code runs here)
     try:
         for name, cl, qn, qa in progs():
-            a = diff.reference([(uniq_clauses(cl), True)], qn, qa, list(qa), maxans=12)
+            a = diff.reference([(uniq_clauses(cl), True)], qn, qa, list(qa), maxans=CAP)
             exp[name] = {'discard': a['discard']} if 'discard' in a else {'answers': a['answers']}
     finally:
         sys.setrecursionlimit(old)
     return {'real': real, 'tier': tier, 'limits': limits(tier), 'expected': exp}
 
 
-def child(ctx, prog, limit, fault, hold, nested=False):
+def child(ctx, prog, limit, fault, hold, nested=False, gv_proj=False):
     """runs in a forked child; returns a JSON-able dict"""
     real = ctx['real']
     E = real.E
@@ -176,6 +184,10 @@ def child(ctx, prog, limit, fault, hold, nested=False):
         return orig_set(n)
     out = {'name': name, 'limit': limit}
     # 1. direct enumeration under the same limit at the same stack depth (no evaluate_bounded)
+    def same_depth():
+        for a in rargs:
+            E.get_value(a)
+
     def direct():
         g = yp.query(qn, rargs)
         res = []
@@ -184,8 +196,10 @@ def child(ctx, prog, limit, fault, hold, nested=False):
             orig_set(limit)
             try:
                 for _ in g:
+                    if gv_proj:
+                        same_depth()              # the same work the projection will do, at the same stack depth
                     res.append(snap_real_iter(E, rargs))
-                    if len(res) >= 12:
+                    if len(res) >= CAP:
                         return res, 'cap'
                 return res, 'complete'
             except RecursionError:
@@ -210,13 +224,18 @@ def child(ctx, prog, limit, fault, hold, nested=False):
 
     def proj(x):
         count[0] += 1
+        if gv_proj:
+            # the documented idiom: the projection reads the variables with the engine's own get_value
+            # (under the lowered limit this may itself raise RecursionError, which evaluate_bounded swallows)
+            for a in rargs:
+                E.get_value(a)
         if nested:
             # re-entrant use: the projection runs its own bounded sub-query on the same engine
             iv = yp.variable()
             inner_results.append(len(yp.evaluate_bounded(yp.query('nestp', [iv]), lambda y: 1, limit + 37)))
         if fault and count[0] == fault[0]:
             raise exc_obj[fault[1]]
-        if count[0] >= 12:
+        if count[0] >= CAP:
             raise StopIteration('cap')          # the documented way to stop: treated as end of results
         return snap_real_iter(E, rargs)
     sys.setrecursionlimit = traced
@@ -248,6 +267,45 @@ def child(ctx, prog, limit, fault, hold, nested=False):
         out['needed_gc'] = True
     orig_set(1000)
     out['inner_results'] = inner_results[:20]
+    # the engine and the variables must be usable afterwards: the same query enumerated directly (no limit), observed
+    # through the public get_value, gives the reference answers again
+    # each query variable can be bound to something new and read back through the public get_value
+    probe_bad = []
+    try:
+        # (which variable is read first rotates with the limit: a stale per-resolution cache shows only on the
+        # first read after the aborted search, any other successful read would clear it)
+        order_ = list(range(len(rargs)))
+        rot = limit % max(1, len(order_))
+        for i in order_[rot:] + order_[:rot]:
+            v = rargs[i]
+            if isinstance(v, E.Variable):
+                pa = yp.atom('ypv_probe_%d' % i)
+                n_y = 0
+                for _ in E.unify(v, pa):
+                    n_y += 1
+                    got_v = E.get_value(v)
+                    if got_v is not pa:
+                        probe_bad.append([i, repr(snap_real_iter(E, [got_v]))[:80]])
+                if n_y != 1:
+                    probe_bad.append([i, 'unify yielded %d times' % n_y])
+    except Exception as e3:
+        probe_bad.append(['exception', type(e3).__name__])
+    out['probe_bad'] = probe_bad
+    again = []
+    try:
+        g2 = yp.query(qn, rargs)
+        for _ in g2:
+            # read the variables last-to-first this time (a stale cache is only visible before another read clears it)
+            rev = snap_real(E, list(reversed(rargs)))
+            again.append(tuple(reversed(rev)) if isinstance(rev, tuple) and rev != ('cyclic',) else rev)
+            if len(again) >= 12:
+                break
+        g2.close()
+        out['again'] = again
+    except RecursionError:
+        out['again'] = 'RecursionError'
+    except Exception as e2:
+        out['again'] = 'EXC ' + type(e2).__name__ + ': ' + str(e2)[:100]
     out.update({'result': res, 'exc': exc, 'before_limit': before_limit, 'after_limit': after_limit, 'trace': trace,
                 'bound_after': left - pre_bound, 'live_variables': len(real.reg.live), 'unraisable': real.unr.take()[:3],
                 'query_vars_unbound': all(not (isinstance(v, E.Variable) and v._is_bound) for v in rargs)})
@@ -266,7 +324,7 @@ def run_forked(ctx, prog, jobs, timeout=60):
             out = []
             for job in jobs:
                 limit, fault, hold = job[0], job[1], job[2]
-                o = child(ctx, prog, limit, fault, hold, nested=(len(job) > 3 and job[3]))
+                o = child(ctx, prog, limit, fault, hold, nested=(len(job) > 3 and job[3]), gv_proj=(len(job) > 4 and job[4]))
                 out.append(o)
                 if o['after_limit'] != o['before_limit'] or o['bound_after'] > 0:
                     break
@@ -354,7 +412,7 @@ def run_case(ctx, seed, idx, tier):
         rng = random.Random((seed * 1000003 + idx) * 7 + 17 + limit * 1009)
         fault = rng.choice(FAULTS[1:]) if rng.random() < 0.6 else None
         hold = rng.random() < 0.4
-        jobs.append((limit, fault, hold, rng.random() < 0.2))
+        jobs.append((limit, fault, hold, rng.random() < 0.2, rng.random() < 0.35))
     r = run_forked(ctx, prog, jobs)
     c0 = {'forked_children': 1}
     if r.get('timeout') or r.get('died') or 'crash' in r:
@@ -381,12 +439,15 @@ def run_case(ctx, seed, idx, tier):
 def judge(ctx, prog, job, r, idx):
     limit, fault, hold = job[0], job[1], job[2]
     nested = len(job) > 3 and job[3]
+    gv_proj = len(job) > 4 and job[4]
     c = {'cases': 1}
+    if gv_proj:
+        c['projection_uses_get_value'] = 1
     if nested:
         c['nested_evaluate_bounded'] = 1
     w = {'program': rprogram(prog[1]), 'name': prog[0], 'query': '%s(%s)' % (prog[2], ','.join(rterm(a) for a in prog[3])),
-         'limit': limit, 'fault': fault, 'hold_generator': hold, 'idx': idx, 'nested': nested}
-    key = (prog[0], limit, fault, hold, nested)
+         'limit': limit, 'fault': fault, 'hold_generator': hold, 'idx': idx, 'nested': nested, 'gv_proj': gv_proj}
+    key = (prog[0], limit, fault, hold, nested, gv_proj)
     expd = ctx['expected'][prog[0]]
     if prog[0] == 'leftrec' and 'discard' in expd:
         expd = {'answers': []}     # by construction: infinite left recursion before any answer
@@ -410,7 +471,7 @@ def judge(ctx, prog, job, r, idx):
     # the direct enumeration itself must agree with the reference (sanity of the oracle)
     if direct != exp[:len(direct)]:
         return {'c': c, 'nt': False, 'key': None, 'discard': 'direct_enumeration_differs_from_reference'}
-    nproj_cap = 11
+    nproj_cap = CAP - 1
     if o['exc'] is not None:
         et = o['exc']['type']
         if et == 'RecursionError':
@@ -455,6 +516,15 @@ def judge(ctx, prog, job, r, idx):
                                              'needed_gc': o.get('needed_gc', False)})
     if o['unraisable']:
         return viol('exception_in_finaliser', {'events': o['unraisable']})
+    if o.get('probe_bad'):
+        return viol('query_variable_not_usable_after_evaluate_bounded', {'probes': o['probe_bad'][:3]})
+    ag = o.get('again')
+    if isinstance(ag, list):
+        if ag != exp[:len(ag)] or (len(ag) < min(len(exp), 12)):
+            return viol('query_gives_other_answers_after_evaluate_bounded', {'expected': exp[:3], 'got': ag[:3], 'n_expected': len(exp), 'n_got': len(ag)})
+        c['rerun_after_bounded_call'] = 1
+    elif isinstance(ag, str) and ag.startswith('EXC'):
+        return viol('query_raises_after_evaluate_bounded', {'error': ag})
     struck = dstat == 'recursion'
     if struck:
         c['limit_struck'] = 1
@@ -474,5 +544,5 @@ def dstat_answers(direct, dstat, exp):
 def replay(ctx, w):
     prog = [p for p in progs() if p[0] == w['name']][0]
     fault = tuple(w['fault']) if w['fault'] else None
-    job = (w['limit'], fault, w['hold_generator'], w.get('nested', False))
+    job = (w['limit'], fault, w['hold_generator'], w.get('nested', False), w.get('gv_proj', False))
     return judge(ctx, prog, job, run_forked(ctx, prog, [job]), w.get('idx', 0))
